@@ -73,6 +73,10 @@ def run(ctx):
             check(res, rec)
             n += 1
         res.rule("MODEL-STEP/" + name, n)
+    from sa import eff
+    eff.check_fwd(ctx, [("edgegraph.builder.explicit.link_directed", "link_from_to", {}), ("edgegraph.builder.explicit.link_undirected", "link_from_to", {})])
+    from rules import structural
+    structural.validate_first(ctx, "edgegraph.structure.twoendedlink.TwoEndedLink.__init__", "RAISE-FIRST")
     common.vacuity(res, "MODEL-STEP/core", 5000)
     common.vacuity(res, "MODEL-STEP/explicit", 300)
     res.analysed = common.analysed(ctx, [q for q in struct.QUAL.values() if "[" not in q])
